@@ -18,6 +18,7 @@ import (
 	"fmt"
 	"net"
 	"strings"
+	"sync/atomic"
 	"time"
 
 	"github.com/facebookincubator/dns/dnsrocks/db"
@@ -155,6 +156,8 @@ func (h *FBDNSDB) ServeDNSWithRCODE(ctx context.Context, w dns.ResponseWriter, r
 	)
 	h.stats.IncrementCounter("DNS_queries")
 
+	// sampled before the reader is acquired: see cacheAdd
+	cacheEpoch := atomic.LoadUint64(&h.cacheEpoch)
 	reader, err := h.AcquireReader()
 	if err != nil {
 		h.stats.IncrementCounter("DNS_db.read_error")
@@ -348,10 +351,10 @@ func (h *FBDNSDB) ServeDNSWithRCODE(ctx context.Context, w dns.ResponseWriter, r
 		if !weighted {
 			// FIXME: we can leave this in cache until it get flushed (via DB reload)
 			timeout = time.Now().Unix() + 1000
-			h.lru.Add(cacheKey, cacheEntry{expiration: timeout, response: a.Copy()})
+			h.cacheAdd(cacheEpoch, cacheKey, cacheEntry{expiration: timeout, response: a.Copy()})
 		} else if h.cacheConfig.WRSTimeout > 0 {
 			timeout = time.Now().Unix() + h.cacheConfig.WRSTimeout
-			h.lru.Add(cacheKey, cacheEntry{expiration: timeout, response: a.Copy()})
+			h.cacheAdd(cacheEpoch, cacheKey, cacheEntry{expiration: timeout, response: a.Copy()})
 		}
 	}
 
